@@ -338,9 +338,38 @@ def gen_comp_scenario(R, mode=None, n_ops=None):
     return core.Scenario(lines, {})
 
 
-def gen_exhaustive(trees_depth=2):
-    """every tree of the given shape space on 3 observables x short op sequences: see c17.py"""
-    raise NotImplementedError
+def exhaustive_trees():
+    """every tree of depth <= 2 over two Observables a=(0,0), b=(0,1) with 2-way branching and results in {0,1}"""
+    leaves = [("ret", 0), ("ret", 1)]
+    inner = list(leaves)
+    for n in (0, 1):
+        for l in leaves:
+            for r in leaves:
+                inner.append(("read", 0, n, [l, r]))
+    for n in (0, 1):
+        for l in inner:
+            for r in inner:
+                yield ("read", 0, n, [l, r])
+
+
+EX_OPS = ["assign 0 0 0", "assign 0 0 1", "assign 0 1 0", "assign 0 1 1", "read 0", "read 1"]
+
+
+def exhaustive_chunk(args):
+    """worker: all op sequences of length 4 for a slice of the trees; c1 = 10*c0 when a == 1 (a chain that switches)"""
+    import itertools
+
+    trees, lo, hi = args
+    out = []
+    chain = "( read 0 0 ( ret 5 ) ( readc 0 ( ret 0 ) ( ret 10 ) ) )"
+    for t in trees[lo:hi]:
+        head = ["scenario comp 0.0.obs,0.1.obs,0.2.comp,0.3.comp -", f"define 0 0 2 {fmt_tree(t)}", f"define 1 0 3 {chain}"]
+        for seq in itertools.product(EX_OPS, repeat=4):
+            sc = core.Scenario(head + list(seq), {})
+            obs = run_comp(sc)
+            cl = oracle_comp(sc, obs)
+            out.append((sc.lines, obs, cl))
+    return out
 
 
 # ------------------------------------------------------------------------------------------
